@@ -1,12 +1,12 @@
 from engine import Obl
 
 META = {
- "level_text": "CBMC symbolic execution of the real lib/ipcs.c (whole unit) and handle_new_connection (lib/ipc_setup.c) over EVERY history of 3 (quick) / 4 (thorough) events that starts with an accepted connection (and, in the '+ref' obligations, an application reference taken on it), over the alphabet {client accepted, client refused, client death (POLLHUP dispatch), server-initiated disconnect from outside, application ref / unref, run the queued closed-callback retry job, connection-list iteration, request dispatch (POLLIN), service destroy}, in five callback configurations (plain; connection_closed asks for a retry; connection_created disconnects; msg_process disconnects; connection_destroyed walks the connection list), followed by a wind-down (application drops its references, retries run). The monitor decides the callback order accept, created, msg*, closed+, destroyed (closed only if created, not again after it returned zero; destroyed exactly once and only with no application reference left; nothing afterwards); CBMC's pointer checks on the real free(c)/free(s) decide use-after-free and double free.",
+ "level_text": "CBMC symbolic execution of the real lib/ipcs.c (whole unit) and handle_new_connection (lib/ipc_setup.c) over EVERY history of 3 (quick) / 4 (thorough) events that starts with an accepted connection (and, in the '+ref' obligations, an application reference taken on it), over the alphabet {client accepted, client refused, client death (POLLHUP dispatch), server-initiated disconnect from outside, application ref / unref, run the queued closed-callback retry job, connection-list iteration, request dispatch (POLLIN), service destroy}, in six callback configurations (plain; connection_closed asks for a retry; connection_created disconnects; connection_created takes a reference and disconnects; msg_process disconnects; connection_destroyed walks the connection list), followed by a wind-down (application drops its references, retries run). The monitor decides the callback order accept, created, msg*, closed+, destroyed (closed only if created, not again after it returned zero; destroyed exactly once and only with no application reference left; nothing afterwards); CBMC's pointer checks on the real free(c)/free(s) decide use-after-free and double free.",
  "level_note": "Transport functions, poll handlers, sockets and the file system are recording stubs (the real transports' cleanup is C03's subject, not decided). Histories are scenario constants (exhaustive for the alphabet, length and at most 2 connections); events on connection 0 only, plus a second connection as bystander. The application is assumed to use a connection pointer only while it is alive (not yet destroyed) or while it holds a reference. Trusted: CBMC.",
  "technique": "CBMC bounded symbolic execution (SAT) of real C code over an exhaustive table of constant event histories; monitor automaton + CBMC memory-safety checks",
  "assumptions": ["allocation never fails", "the application does not use a destroyed connection it holds no reference on"],
 }
-CFGS = [("plain", []), ("closed-retry", ["CLOSED_RETRY=1"]), ("created-disc", ["CREATED_DISC=1"]), ("msg-disc", ["MSG_DISC=1"]), ("destroyed-iter", ["DESTROYED_ITER=1"])]
+CFGS = [("plain", []), ("closed-retry", ["CLOSED_RETRY=1"]), ("created-disc", ["CREATED_DISC=1"]), ("created-refdisc", ["CREATED_DISC=2"]), ("msg-disc", ["MSG_DISC=1"]), ("destroyed-iter", ["DESTROYED_ITER=1"])]
 def obligations(tier):
     nops = 3 if tier == "quick" else 4
     total = 10 ** (nops - 1)
@@ -15,7 +15,7 @@ def obligations(tier):
     obs = []
     allcfg = [(n, d) for n, d in CFGS] + [(n + "+ref", d + ["PRELOAD_REF"]) for n, d in CFGS]
     if tier == "quick":
-        allcfg = [c for c in allcfg if c[0] in ("msg-disc", "destroyed-iter", "plain+ref", "closed-retry+ref")]
+        allcfg = [c for c in allcfg if c[0] in ("msg-disc", "destroyed-iter", "plain+ref", "closed-retry+ref", "created-refdisc")]
     for name, defs in allcfg:
         for part in range(parts):
             obs.append(Obl("life-%s-N%d-part%d" % (name, nops, part), "c04_lifecycle.c", defs=["NOPS=%d" % nops, "SC_BASE=%d" % (part * per)] + defs,
